@@ -71,6 +71,22 @@ class Evaluator:
     self.subst = {}       # predicate substitution (functor semantics): name -> name
     self.overrides = {}   # explicit tables (recursion driver)
     self.stats = Counter()
+    # @OrderBy / @Limit: {pred: [(column, descending)]}, {pred: k}; ordered[pred] = list of rows in order
+    self.order_by = {}
+    self.limit = {}
+    self.ordered = {}
+    for a in prog.get('annotations', []):
+      if a[0] == 'OrderBy':
+        keys = []
+        for c in a[2]:
+          if c == 'DESC':
+            keys[-1] = (keys[-1][0], True)
+          else:
+            parts = c.split()
+            keys.append((parts[0], len(parts) > 1 and parts[1].lower() == 'desc'))
+        self.order_by[a[1]] = keys
+      elif a[0] == 'Limit':
+        self.limit[a[1]] = a[2]
 
   # ------------------------------------------------------------------------------------------
   def columns(self, pred):
@@ -112,6 +128,8 @@ class Evaluator:
       t = self.compute(pred)
       if sum(t.values()) > self.max_total:
         raise Capped()
+      if pred in self.order_by or pred in self.limit:
+        t = self.apply_order_limit(pred, t)
     except (Capped, Ambiguous) as e:
       self.failed[pred] = e
       raise
@@ -119,6 +137,34 @@ class Evaluator:
       self.in_progress.discard(pred)
     self.tables[pred] = t
     return t
+
+  def apply_order_limit(self, pred, t):
+    """order_by / limit: the predicate is its first K rows in the requested order."""
+    cols = self.columns(pred)
+    rows = []
+    for row, m in t.items():
+      rows.extend([row] * m)
+    keys = self.order_by.get(pred)
+    k = self.limit.get(pred)
+    if keys:
+      idx = [(cols.index(c), d) for c, d in keys]
+      for i, desc in reversed(idx):
+        rows.sort(key=lambda r: sort_key(canon(r[i])), reverse=desc)
+      # the order must be total up to identical rows, else the first K rows are a tie choice
+      if k is not None and 0 < k < len(rows):
+        def kk(r):
+          return tuple(sort_key(canon(r[i])) for i, _ in idx)
+        if kk(rows[k - 1]) == kk(rows[k]) and rows[k - 1] != rows[k]:
+          raise Ambiguous()
+    elif k is not None and 0 < k < len(rows) and len(set(rows)) > 1:
+      raise Ambiguous()          # limit without order: which rows survive is unspecified
+    if k is not None:
+      rows = rows[:k]
+    self.ordered[pred] = rows
+    out = Counter()
+    for r in rows:
+      out[r] += 1
+    return out
 
   def compute(self, pred):
     rules = self.rules.get(pred)
